@@ -101,6 +101,22 @@ fn main() {
     println(find(7), find(0), find(30));
 }
 `,
+	// constant expressions where a rewrite must stay constant: global initialisers
+	"global-initialisers": `let SECONDS_PER_HOUR = 60 * 60;
+let MIXED = 3 * 7 + 2 * 2;
+let FLAG = 2 * 3 == 6;
+let NEG = 0 - 4 * 5;
+let NAMES = ["a", "b"];
+let LIMITS = [2 * 5, 3 * 3];
+let REC = new { w: 4 * 4, lit: true };
+fn area(w: int, h: int) -> int { w * h }
+fn main() {
+    println(SECONDS_PER_HOUR, MIXED, FLAG, NEG, NAMES, LIMITS, REC.w);
+    let x = 6 * 7;
+    println(x * 2, area(3, 4) * 2, SECONDS_PER_HOUR * 24);
+    if 2 * 2 < x { println("big"); }
+}
+`,
 	"nested-exits": `fn f(x: int) -> str {
     let out = "";
     for i in 0..6 {
@@ -146,6 +162,10 @@ func TestTableLoopControl(t *testing.T) {
 	nSeeds := pk.Scale(40, 400)
 	k := 0
 	for _, name := range names {
+		if resp := px.Pool().Exec(&sb.Request{Op: "analyze", Modules: map[string]string{"main": loopCtl[name]}, Entry: "main"}); resp == nil || !resp.Accepted {
+			col.Report(Case{ProgCase: px.ProgCase{Modules: map[string]string{"main": loopCtl[name]}, Entry: "main"}}, pk.Failf("variants", "table-rejected ["+name+"]", "a hand-written program of the table is not accepted: %s\n%s", diagText(resp), loopCtl[name]))
+			continue
+		}
 		for s := 0; s < nSeeds; s++ {
 			seed := int64(s)*7919 + pk.Seed()*1000003
 			for _, passes := range []int{2, 3, 5} {
